@@ -23,18 +23,18 @@ META = {
         "Pyoda.C10.localTime_inv_factories", "Pyoda.C10.localTime_inv", "Pyoda.C10.factories_raise_iff",
         "Pyoda.C10.accessors_decompose", "Pyoda.C10.hour_shift_eq", "Pyoda.C10.minute_shift_eq",
         "Pyoda.C10.addLocalTime_mod", "Pyoda.C10.plusPeriod_time_mod", "Pyoda.C10.addWithDays_exact",
-        "Pyoda.C10.addWithDays_ok", "Pyoda.C10.addWithDays_error_kind", "Pyoda.C10.addLocalDateTime_exact",
+        "Pyoda.C10.addLocalDateTime_exact",
         "Pyoda.C10.addLocalDateTime_raises_iff", "Pyoda.C10.plusPeriod_exact", "Pyoda.C10.plusPeriod_order",
         "Pyoda.C10.unitsBetween_trunc", "Pyoda.C10.compare_iff",
     ],
     "trusted_base": [
-        "CPython int arithmetic; decimal division exact for operands below 10^27 (sampled by C03 suite prelude.tdiv)",
+        "CPython int arithmetic; decimal division exact for operands below 10^27 (sampled by C03 suite prelude.tdiv) - used only by the "
+        "accessors and Period.between, whose operands are below 2^47 resp. 2^77; the additions use integer division for every amount",
         "date carry: LocalDate.plus_days / plus_weeks abstracted to a range check of the day number against the calendar's "
         "[min_days, max_days] (tied to the code by suite ldt.* in 19 calendars; the calendars themselves are C01/C09)",
         "int(NANOSECONDS_PER_DAY / unit_nanoseconds) is exact for the seven units (float quotient of integers below 2^53)",
     ],
     "partial": [
-        "amounts of 10^27 units and more: the model replies !dom (code uses a 28-digit Decimal quotient); only the direct oracle speaks there",
         "plus_years/plus_months inside plus(Period) are taken from the real code (day number after them is an op argument); their laws are C09",
     ],
     "rule": "times at 0, 1, 24h-1 and every hour/minute boundary +-1; amounts 0, +-1, +-(upd-1), +-upd, +-(upd+1), +-k*upd(+-1), 2^63+-1, 10^27, 10^30 per unit, "
@@ -458,8 +458,6 @@ def _oracle(t):
                 return {"key": "inexact-amount-beyond-decimal-precision" if huge else "adddays-inexact",
                         "what": f"{u}._add_local_time_with_extra_days(nod={n}, {k}) = (nod {r[0].nanosecond_of_day}, days {r[1]}), exact (nod {m}, days {D})"}
             return None
-        if kind == "dec" and huge:
-            return None  # internal helper: an error for amounts beyond the decimal domain is judged at the public entry points
         return {"key": "adddays-raises", "what": f"{u}._add_local_time_with_extra_days(nod={n}, {k}) raised {type(r).__name__}"}
     if op == "ldt.plus":
         cal = cal_of(t[1])
@@ -584,7 +582,8 @@ def _special_amounts(u, rng=None):
          10**28, 10**29 - 1, 3 * 10**28 + 7, 2**31 - 1, 2**31, 2**32]
     for k in ks:
         a += [k * upd - 1, k * upd, k * upd + 1]
-    for k in (10**13, 10**14, 10**15, 10**16, 10**20, 123456789 * 10**12):  # quotient of 28 significant digits rounds to an integer
+    a += [10**33, 10**40, 10**40 + 1, 2**128 - 1]
+    for k in (10**13, 10**14, 10**15, 10**16, 10**20, 123456789 * 10**12, 10**27, 10**28, 10**33, 10**40 + 7):  # quotients of 28 and more digits
         a += [k * upd - 1, k * upd, k * upd + 1]
     return sorted(set(a) | {-x for x in a})
 
@@ -812,7 +811,7 @@ def gen_huge_ops(ctx):
         lo, hi = cals[tok]
         for j, f in reversed(list(enumerate(PFIELDS))):
             upd = NPD // UNIT_NANOS[f]
-            for e in range(12, 30):
+            for e in list(range(12, 31)) + [33, 36, 40]:
                 k = 10**e
                 for delta in (-1, 0, 1):
                     for sg in (1, -1):
